@@ -109,6 +109,22 @@ theorem getD_resolveMetas_length (defs : List Operation) (metas : List MetaM) :
   | none => simp
   | some ms => simp [resolveMetas_length hr]
 
+/-- the first pair of an accepted loop: its operation's predecessor is none or Done in the state the loop started in -/
+theorem checkPairs_head_pred {c c' : CState} {auth : List AuthTok} {pairs : List (Context × Meta)} {ctx : Context} {mt : Meta}
+    (h : checkPairs c auth pairs = .ok c') (h0 : pairs[0]? = some (ctx, mt)) :
+    mt.pred = Id.zero ∨ c.tl.ledger mt.pred = 1 := by
+  cases pairs with
+  | nil => simp at h0
+  | cons hd rest =>
+    simp only [List.getElem?_cons_zero, Option.some.injEq] at h0
+    subst h0
+    unfold checkPairs at h
+    cases h1 : checkOne c auth ctx mt with
+    | error e => rw [h1] at h; cases h
+    | ok c1 =>
+      obtain ⟨fn, args, tl', _, _, hse, _⟩ := checkOne_ok h1
+      exact (setExecute_ok hse).2.2.1
+
 /-! ### the accepted `__check_auth` -/
 
 theorem check_sound (m : Mon) (x : MS) (hi : MInv x) (ha : Agree m x) (cl : CallLine)
@@ -182,7 +198,8 @@ theorem check_sound (m : Mon) (x : MS) (hi : MInv x) (ha : Agree m x) (cl : Call
       ∃ cm md fn args pred, (liveCtxs x.defs ctxs)[j]? = some cm ∧ ctxCall x.defs cm = some (0, fn, args) ∧
         metas[j]? = some md ∧ ops[j]? = some ⟨0, fn, args, pred, md.s⟩ ∧
         keyOf x.defs fn args md = some (Id.op 0 fn args pred md.s) ∧
-        ∀ ok0 eq0, consumed m (modelObs x.c x.defs ok0 eq0) (modelObs c' x.defs true none) fn args md j cl.auth = none := by
+        ∀ ok0 eq0, consumed m (modelObs x.c x.defs ok0 eq0) (modelObs c' x.defs true none) fn args md j cl.auth
+          (decide ((liveCtxs x.defs ctxs).length = 1)) = none := by
     intro j hj
     obtain ⟨cm, md, fn, args, pred, hcm, hcall', hmd, hpred, hctx, hmt, hop, hgate⟩ := idx j hj
     have hmem : (⟨0, fn, args, pred, md.s⟩ : Operation) ∈ ops := List.mem_of_getElem? hop
@@ -215,8 +232,14 @@ theorem check_sound (m : Mon) (x : MS) (hi : MInv x) (ha : Agree m x) (cl : Call
         rw [List.getElem?_map, List.getElem?_map, hop, hop2]
       have hjj : j' = j := (List.getElem?_inj (by rw [List.length_map]; omega) hnd).mp this
       rw [hjj] at hj'; exact hj'
+    have hpd : decide ((liveCtxs x.defs ctxs).length = 1) = true → pred = Id.zero ∨ x.c.tl.ledger pred = 1 := by
+      intro hc
+      have h1 : (liveCtxs x.defs ctxs).length = 1 := of_decide_eq_true hc
+      have hj0 : j = 0 := by omega
+      subst hj0
+      exact checkPairs_head_pred hp (List.getElem?_zip_eq_some.mpr ⟨hctx, hmt⟩)
     have hcons := fun ok0 eq0 =>
-      consumed_none m x hi ha c' ok0 eq0 fn args md pred hpred j cl.auth hr hd hexec
+      consumed_none m x hi ha c' ok0 eq0 fn args md pred hpred j cl.auth hr hd hexec _ hpd
     exact ⟨cm, md, fn, args, pred, hcm, hcall', hmd, hop, (hcons true none).2, fun ok0 eq0 => (hcons ok0 eq0).1⟩
   -- membership in the monitor's list of consumed keys
   have hkeys : ∀ id, id ∈ checkKeys x.defs metas (liveCtxs x.defs ctxs) ↔ id ∈ ops.map Operation.id := by
